@@ -119,7 +119,7 @@ func (g *gen) build() {
 	smallLens := []int{0, 1, 2, 3, 17, 100, 255, 256, 511, 512, 513, 1000}
 	// A. small bodies x framings x modes x segmentations
 	for i, n := 0, r.Scale(500, 6000); i < n; i++ {
-		a := genAresp(rng, hk.Pick(rng, smallLens), rng.Intn(9), false)
+		a := genAresp(rng, hk.Pick(rng, smallLens), rng.Intn(9), i%5 == 0)
 		g.h1(a, g.pickFraming(a), "GET", hk.Pick(rng, modes), hk.Pick(rng, segKinds), rng.Chance(30))
 	}
 	// B. body lengths at the boundary table, every framing
@@ -180,9 +180,9 @@ func (g *gen) build() {
 	}
 	// E. many / long header fields
 	for i, n := 0, r.Scale(80, 800); i < n; i++ {
-		// long values (longer than the 4096-byte bufio buffer) on every 8th: the Coq model's trim is
-		// quadratic in the line length, so only a few of those are affordable per run
-		a := genAresp(rng, hk.Pick(rng, smallLens), rng.Range(10, 30), i%8 == 0)
+		// long values (also longer than the 4096-byte bufio buffer); the checker evaluates the linear-time
+		// copy of the reader (Model/H1Fast.v, proved equal to the original)
+		a := genAresp(rng, hk.Pick(rng, smallLens), rng.Range(10, 30), true)
 		g.h1(a, g.pickFraming(a), "GET", hk.Pick(rng, modes), hk.Pick(rng, segKinds), false)
 	}
 	// F. HTTP/2: DATA partitions with padding / empty frames / CONTINUATION, trailers, interim responses
